@@ -850,6 +850,73 @@ fn watched_bursts(v: &Verdicts, thorough: bool, rng: &mut Rng) -> (u64, u64, u64
     (bursts, told, largest)
 }
 
+/// Sessions that come and go while the set of databases changes (round 12). Real threads, no scheduler: one administrator
+/// creates databases in a loop (each creation takes the write lock of the databases map; a waiting writer also keeps new
+/// readers out) while four sessions select d0 and leave again, 150-1500 times each. Whatever a disconnect finds the
+/// databases map busy with, it counts: when everybody has gone the count of d0 is back where it was and the key says so.
+/// Returns (rounds, sessions that came and went, databases created meanwhile).
+fn sessions_during_create_db(v: &Verdicts, thorough: bool) -> (u64, u64, u64) {
+    use std::sync::atomic::{AtomicBool, AtomicU64, Ordering};
+    let (mut rounds, mut came, mut created) = (0u64, 0u64, 0u64);
+    for round in 0..(if thorough { 12 } else { 3 }) {
+        let (node, _adm) = setup();
+        let dbs = node.dbs.clone();
+        let base = counts(&dbs).get("d0").map(|c| c.0).unwrap_or(0);
+        let stop = AtomicBool::new(false);
+        let made = AtomicU64::new(0);
+        let gone = AtomicU64::new(0);
+        let per = if thorough { 1500 } else { 150 + 150 * round };
+        std::thread::scope(|sc| {
+            sc.spawn(|| {
+                let mut a = Session::new();
+                a.call(&dbs, "auth admin pwd");
+                let mut i = 0u64;
+                while !stop.load(Ordering::SeqCst) {
+                    a.call(&dbs, &format!("create-db extra{}x{} tok", round, i));
+                    i += 1;
+                    made.fetch_add(1, Ordering::SeqCst);
+                    if i % 16 == 0 {
+                        std::thread::sleep(Duration::from_micros(200));
+                    }
+                    if i > 20_000 {
+                        break;
+                    }
+                }
+                a.disconnect(&dbs);
+            });
+            let workers: Vec<_> = (0..4)
+                .map(|w| {
+                    let (dbs, gone) = (&dbs, &gone);
+                    sc.spawn(move || {
+                        for i in 0..per {
+                            let mut s = Session::new();
+                            s.call(dbs, if (i + w) % 5 == 0 { "use-db d0 u utok" } else { "use-db d0 tok" });
+                            if i % 3 == 0 {
+                                s.call(dbs, "get $connections");
+                            }
+                            s.disconnect(dbs);
+                            gone.fetch_add(1, Ordering::SeqCst);
+                        }
+                    })
+                })
+                .collect();
+            for w in workers {
+                let _ = w.join();
+            }
+            stop.store(true, Ordering::SeqCst);
+        });
+        rounds += 1;
+        came += gone.load(Ordering::SeqCst);
+        created += made.load(Ordering::SeqCst);
+        let after = counts(&dbs).get("d0").cloned().unwrap_or((0, String::new()));
+        if after.0 != base || after.1 != base.to_string() {
+            v.report(json!({"check": "connections", "mode": "sessions-leaving-while-databases-are-created", "problem": if after.0 != base { "count-not-back-after-the-burst" } else { "key-differs-from-count" }}),
+                json!({"sessions_that_came_and_went": gone.load(Ordering::SeqCst), "databases_created_meanwhile": made.load(Ordering::SeqCst), "count_before": base, "count_after": after.0, "key_after": after.1}));
+        }
+    }
+    (rounds, came, created)
+}
+
 pub fn run(tier: &str) -> i32 {
     quiet_panics();
     let thorough = tier == "thorough";
@@ -927,6 +994,7 @@ pub fn run(tier: &str) -> i32 {
     take_panics();
     let restart_cases = restart_part(&v);
     let wb = watched_bursts(&v, thorough, &mut rng);
+    let sdc = sessions_during_create_db(&v, thorough);
     let (cl_runs, cl_inconclusive, cl_checks, cl_full_early) = cluster_part(&v, if thorough { 1000 } else { 100 }, seed());
     let (tr_sessions, tr_shapes) = transports(&v, if thorough { 6_000 } else { 300 }, &mut rng);
     // a TCP session whose client stops reading (it watches a key that is written a lot): however the node ends that
@@ -954,6 +1022,7 @@ pub fn run(tier: &str) -> i32 {
     ev.rule = format!("sequential: {} systematic + {} random sequences of connect / use-db (db token, wrong token, user token, unknown db; same db again, other db) / other commands / disconnect over 3 sessions x 2 databases, model checked after every event against Database.connections, the $connections key and a watcher's notifications; interleaved: {} token-passing schedules of two sessions (use-db, use-db, disconnect|stay) ; transports: {} sessions in bursts of 1-3 over real TCP (orderly close, and connection reset with replies left unread), WebSocket (close frame and abrupt close) and HTTP (end of request), counts checked while connected and after the burst; cluster: {} simulated 2-node runs in which sessions select a database on both nodes, the secondary leaves (kill / clean stop, disk kept / wiped) and re-joins through a synchronisation, counts judged per node ({} node counts); distinct_nontrivial = distinct event-shape sequences (sequential) + distinct schedules in which both sessions touch one database + distinct transport burst shapes", systematic, n_random, il_runs, tr_sessions, cl_runs, cl_checks);
     ev.samples = s.samples.clone();
     ev.set("bursts_watched_by_a_session_that_reads_later", json!({"bursts": wb.0, "changes_the_watchers_were_told_of": wb.1, "largest_backlog_lines": wb.2}));
+    ev.set("sessions_leaving_while_databases_are_created", json!({"rounds": sdc.0, "sessions_that_came_and_went": sdc.1, "databases_created_meanwhile": sdc.2}));
     ev.set("sequential_events", json!(s.events));
     ev.set("sequential_shapes", json!(s.shapes.len()));
     ev.set("watcher_notifications_checked", json!(s.notifications_checked));
